@@ -378,6 +378,10 @@ def plan(tier, seed):
                 for newloop in (False, True, "open"):
                     specs.append({"mode": "hist", "transport": transport, "ka": ka, "T": T, "R": R, "depth": depth,
                                   "newloop": newloop})
+    for ka in (False, True):
+        for T, R in ((7, 0), (6, 1), (0.2, 2)):
+            specs.append({"mode": "hist", "transport": "tcp", "ka": ka, "T": T, "R": R, "depth": 1, "newloop": False})
+            specs.append({"mode": "hist", "transport": "udp", "ka": ka, "T": T, "R": R, "depth": 1, "newloop": False})
     specs.append({"mode": "entry", "tier": tier})
     return specs
 
